@@ -476,3 +476,48 @@ fn c07_v_twin() {
     assert!(a.cmp(&b) == Ordering::Greater, "twin: must fail");
     core::mem::forget((a, b));
 }
+
+macro_rules! rank_pair {
+    ($name:ident, $va:expr, $vb:expr) => {
+        #[kani::proof]
+        #[kani::unwind(19)]
+        #[kani::stub(std::fmt::format, crate::stubs::fmt_format_stub)]
+        fn $name() {
+            let a = pd($va, false);
+            let b = pd($vb, true);
+            let got = a.cmp(&b);
+            assert!(got == ($va as u8).cmp(&($vb as u8)), "different variants compare by rank Constr < Map < Array < BigInt < BoundedBytes");
+            let back = b.cmp(&a);
+            assert!(back == got.reverse(), "swapping the operands reverses the result");
+            kani::cover!(true, "reached");
+            core::mem::forget((a, b));
+        }
+    };
+}
+// bound: one ordered pair of different variants per harness: Constr(121, no fields), empty Map, empty Array, BigUInt(1 symbolic byte), BoundedBytes(1 symbolic byte); unwind 19
+rank_pair!(c07_q_rank_constr_map, 0, 1);
+rank_pair!(c07_q_rank_map_array, 1, 2);
+rank_pair!(c07_q_rank_array_bigint, 2, 3);
+rank_pair!(c07_q_rank_bigint_bytes, 3, 4);
+rank_pair!(c07_t_rank_constr_bytes, 0, 4);
+rank_pair!(c07_t_rank_map_bigint, 1, 3);
+
+macro_rules! empty_eq {
+    ($name:ident, $v:expr) => {
+        #[kani::proof]
+        #[kani::unwind(19)]
+        #[kani::stub(std::fmt::format, crate::stubs::fmt_format_stub)]
+        fn $name() {
+            let a = pd($v, false);
+            let b = pd($v, true);
+            assert!(a.cmp(&b) == Ordering::Equal, "Def and Indef encodings of the same empty container compare Equal");
+            assert!(a == b, "Def and Indef encodings of the same empty container are equal");
+            kani::cover!(true, "reached");
+            core::mem::forget((a, b));
+        }
+    };
+}
+// bound: empty Constr fields / Map / Array, Def on the left and Indef on the right (containers with elements: no verdict, values read back through Vec pointers lose their concrete variants); unwind 19
+empty_eq!(c07_q_def_indef_empty_constr, 0);
+empty_eq!(c07_q_def_indef_empty_map, 1);
+empty_eq!(c07_q_def_indef_empty_array, 2);
